@@ -37,6 +37,21 @@
 (* `base' = underlying allocations the cache object holds for itself       *)
 (* (today none: the class table comes from the default malloc allocator).  *)
 (*                                                                         *)
+(* Unknown releases.  Releasing a buffer the cache never handed out gives   *)
+(* the warning the first time and changes nothing.  When the cache is the   *)
+(* string allocator of SimpleString (global), PRINTING the warning is      *)
+(* itself a client of the cache: the text is built from strings (requests  *)
+(* and releases of known buffers) and may release further unknown buffers  *)
+(* - e.g. the output string of the current test, created before the cache  *)
+(* was installed, is appended to: a new buffer is requested, the old one   *)
+(* (unknown) is released.  Such an unknown release therefore has a         *)
+(* beginning (WarnBegin: the decision to warn, taken once) and an end      *)
+(* (WarnEnd); `printing' counts the warnings being printed, the calls in   *)
+(* between are ordinary calls.  An unknown release that arrives while the  *)
+(* warning is printed is silent: still exactly one warning (`nwarn'), the  *)
+(* lists untouched, no nesting (a nested warning would print itself again  *)
+(* and never terminate: NoNestedWarning).                                  *)
+(*                                                                         *)
 (* The property leaves open WHICH idle block of the class is reused and    *)
 (* whether one is reused at all: Alloc is nondeterministic there.          *)
 (* AllocImpl is the choice the code makes today (head of the free list,    *)
@@ -60,9 +75,11 @@ VARIABLES free,      \* [ClassMax -> Seq(Block)]  idle blocks, head insertion
           last,      \* observable outcome of the last call
           life,      \* "none" | "bare" | "global": which cache object exists
           salloc,    \* "under" | "cache": the string allocator SimpleString uses
-          base       \* ghost: underlying allocations held by the cache object itself (not by a block)
+          base,      \* ghost: underlying allocations held by the cache object itself (not by a block)
+          printing,  \* number of unknown-release warnings being printed right now (calls may arrive meanwhile)
+          nwarn      \* ghost: number of warnings given since the cache object was constructed
 
-vars == <<free, used, uncached, warned, under, nid, req, last, life, salloc, base>>
+vars == <<free, used, uncached, warned, under, nid, req, last, life, salloc, base, printing, nwarn>>
 
 Limit == CHOOSE m \in ClassMax : \A c \in ClassMax : c <= m
 Cached(n) == n <= Limit
@@ -84,14 +101,15 @@ Outcome(op, mem, warn, got, ret) == [op |-> op, mem |-> mem, warn |-> warn, got 
 Init == /\ free = [c \in ClassMax |-> <<>>] /\ used = [c \in ClassMax |-> <<>>] /\ uncached = <<>>
         /\ warned = FALSE /\ under = {} /\ nid = 1 /\ req = <<>>
         /\ last = Outcome("init", 0, FALSE, {}, {})
-        /\ life = "none" /\ salloc = "under" /\ base = {}
+        /\ life = "none" /\ salloc = "under" /\ base = {} /\ printing = 0 /\ nwarn = 0
 Alive == life # "none"
 LifeSame == UNCHANGED <<life, salloc, base>>
+Calm == UNCHANGED <<printing, nwarn>>
 
 -----------------------------------------------------------------------------
 \* alloc(n) served by a block freshly obtained from the underlying allocator
 AllocNew(n, mem, aux, cap) ==
-    /\ Alive /\ LifeSame
+    /\ Alive /\ LifeSame /\ Calm
     /\ mem \notin under /\ mem \notin aux /\ aux \cap under = {} /\ mem # 0 /\ 0 \notin aux
     /\ cap >= n /\ (Cached(n) => cap >= ClassOf(n))     \* big enough for every later request of its class
     /\ LET b == Block(mem, aux, cap, ClassOf(n)) IN
@@ -105,7 +123,7 @@ AllocNew(n, mem, aux, cap) ==
 
 \* alloc(n) served by the i-th idle block of the request's own class
 AllocReuse(n, i) ==
-    /\ Alive /\ LifeSame
+    /\ Alive /\ LifeSame /\ Calm
     /\ Cached(n) /\ i \in 1..Len(free[ClassOf(n)])
     /\ LET c == ClassOf(n)
            b == free[c][i] IN
@@ -128,7 +146,7 @@ AllocImpl(n) == IF Cached(n) /\ free[ClassOf(n)] # <<>> THEN AllocReuse(n, 1)
 
 \* dealloc(p, m) of a handed-out buffer, m in the class the buffer was requested in
 Dealloc(mem, m) ==
-    /\ Alive /\ LifeSame
+    /\ Alive /\ LifeSame /\ Calm
     /\ mem \in DOMAIN req /\ ClassOf(m) = ClassOf(req[mem])
     /\ IF Cached(m)
        THEN LET c == ClassOf(m)
@@ -147,16 +165,30 @@ Dealloc(mem, m) ==
     /\ req' = Without(req, mem)
     /\ UNCHANGED <<warned, nid>>
 
-\* dealloc of a pointer the cache never handed out: warn the first time, change nothing else
+\* dealloc of a pointer the cache never handed out: warn the first time, change nothing else.  (Atomic form: printing
+\* the warning makes no call on this cache - a bare cache, or any later unknown release, also one that arrives while
+\* the warning is being printed.)
 DeallocUnknown ==
     /\ Alive /\ LifeSame
-    /\ warned' = TRUE
+    /\ warned' = TRUE /\ nwarn' = IF warned THEN nwarn ELSE nwarn + 1
     /\ last' = Outcome("dealloc", 0, ~warned, {}, {})
+    /\ UNCHANGED <<free, used, uncached, under, nid, req, printing>>
+
+\* the first unknown release on a cache that is the string allocator: the warning is decided (once and for all) and its
+\* printing begins; until WarnEnd the printing code requests / releases buffers like any other client
+WarnBegin ==
+    /\ Alive /\ LifeSame /\ salloc = "cache"
+    /\ ~warned /\ warned' = TRUE /\ nwarn' = nwarn + 1 /\ printing' = printing + 1
+    /\ last' = Outcome("wbegin", 0, TRUE, {}, {})
     /\ UNCHANGED <<free, used, uncached, under, nid, req>>
+WarnEnd ==
+    /\ Alive /\ LifeSame /\ printing > 0 /\ printing' = printing - 1
+    /\ last' = Outcome("wend", 0, FALSE, {}, {})
+    /\ UNCHANGED <<free, used, uncached, under, nid, req, warned, nwarn>>
 
 \* clearCache: every idle block goes back to the underlying allocator
 ClearCache ==
-    /\ Alive /\ LifeSame
+    /\ Alive /\ LifeSame /\ Calm /\ printing = 0
     /\ free' = [c \in ClassMax |-> <<>>]
     /\ under' = under \ StoreAll(Idle)
     /\ last' = Outcome("clearcache", 0, FALSE, {}, StoreAll(Idle))
@@ -164,7 +196,7 @@ ClearCache ==
 
 \* clearAllIncludingCurrentlyUsedMemory: everything goes back, handed-out buffers included
 ClearAll ==
-    /\ Alive /\ LifeSame
+    /\ Alive /\ LifeSame /\ Calm /\ printing = 0
     /\ free' = [c \in ClassMax |-> <<>>] /\ used' = [c \in ClassMax |-> <<>>] /\ uncached' = <<>>
     /\ under' = under \ StoreAll(AllBlocks)
     /\ req' = <<>>
@@ -179,7 +211,7 @@ Construct(k, tbl) ==
     /\ life' = k /\ salloc' = IF k = "global" THEN "cache" ELSE salloc
     /\ base' = tbl /\ under' = under \cup tbl
     /\ nid' = MaxOf({nid} \cup { x + 1 : x \in tbl })
-    /\ warned' = FALSE
+    /\ warned' = FALSE /\ printing' = 0 /\ nwarn' = 0
     /\ last' = Outcome("construct", 0, FALSE, tbl, {})
     /\ UNCHANGED <<free, used, uncached, req>>
 
@@ -187,7 +219,7 @@ Construct(k, tbl) ==
 \* handed out (their owners outlive the cache), the object's own allocations - and the previous string allocator is
 \* back in place.  A bare cache is only destroyed after its owner cleared it.
 Destroy ==
-    /\ Alive
+    /\ Alive /\ Calm /\ printing = 0
     /\ life = "bare" => AllBlocks = {}
     /\ free' = [c \in ClassMax |-> <<>>] /\ used' = [c \in ClassMax |-> <<>>] /\ uncached' = <<>>
     /\ under' = under \ (StoreAll(AllBlocks) \cup base)
@@ -200,7 +232,7 @@ Next == \/ \E k \in {"bare", "global"} : Construct(k, {})
         \/ Destroy
         \/ \E n \in Sizes : Cardinality(DOMAIN req) < MaxLive /\ Alloc(n)
         \/ \E mem \in DOMAIN req, m \in Sizes : Dealloc(mem, m)
-        \/ DeallocUnknown
+        \/ DeallocUnknown \/ WarnBegin \/ WarnEnd
         \/ ClearCache \/ ClearAll
 
 Spec == Init /\ [][Next]_vars
@@ -215,7 +247,8 @@ HandedOut == { p \in Pos : p[1] # "f" }
 
 TypeOK == /\ warned \in BOOLEAN /\ nid \in Nat /\ under \subseteq 1..(nid - 1)
           /\ \A p \in Pos : At(p).mem \in Nat /\ At(p).cap \in Nat /\ At(p).cls \in ClassMax \cup {0}
-          /\ last.op \in {"init", "alloc", "dealloc", "clearcache", "clearall", "construct", "destroy"} /\ last.warn \in BOOLEAN
+          /\ last.op \in {"init", "alloc", "dealloc", "clearcache", "clearall", "construct", "destroy", "wbegin", "wend"} /\ last.warn \in BOOLEAN
+          /\ printing \in Nat /\ nwarn \in Nat
           /\ life \in {"none", "bare", "global"} /\ salloc \in {"under", "cache"} /\ base \subseteq under
 
 \* no two blocks the cache holds (idle or handed out) share storage: in particular a buffer handed out
@@ -242,11 +275,16 @@ AllBackAfterDestroy == /\ last.op = "destroy" => life = "none"
 \* SimpleString allocates through the cache exactly while a global cache exists; afterwards the previous allocator is back
 InstalledIffGlobal == (salloc = "cache") <=> (life = "global")
 \* the warning is given at most once (action property) and only by a release
-WarnImpliesWarned == last.warn => warned /\ last.op = "dealloc"
+WarnImpliesWarned == last.warn => warned /\ last.op \in {"dealloc", "wbegin"}
 WarnOnce == [][last'.warn => ~warned]_vars
+\* ... also when unknown releases arrive while the warning is being printed: one warning per cache object, the printing
+\* of a warning never starts another one (it would not terminate), and whoever prints has set the one-time flag first
+OneWarning == nwarn <= 1 /\ (Alive => (warned <=> nwarn = 1))
+NoNestedWarning == printing <= 1 /\ (printing > 0 => warned)
 \* whatever is returned to the underlying allocator was held (exactly-once return), and what is obtained is new
 ReturnsOwned == [][last'.ret \subseteq under \cup last'.got /\ last'.got \cap under = {}
                    /\ under' = (under \cup last'.got) \ last'.ret]_vars
 \* an unknown release leaves the lists alone
-UnknownReleaseHarmless == [][(last'.op = "dealloc" /\ last'.mem = 0) => UNCHANGED <<free, used, uncached, under, req>>]_vars
+UnknownReleaseHarmless == [][((last'.op = "dealloc" /\ last'.mem = 0) \/ last'.op \in {"wbegin", "wend"})
+                             => UNCHANGED <<free, used, uncached, under, req>>]_vars
 =============================================================================
